@@ -11,7 +11,7 @@ import (
 	"github.com/dolthub/dolt/go/zzverif/vsql"
 )
 
-const c23Rule = "2-4 client sessions (mostly autocommit off) run 20-50 statements on one table with 3-4 value columns and primary keys 1..3 on one branch (or two) in a statement-level interleaving drawn by rapid: single/multi-column UPDATE (constants and c=c+1), INSERT/REPLACE, DELETE, COMMIT, BEGIN (implicit commit), ROLLBACK and CALL dolt_commit('-Am'|'-am'). Every commit attempt is decided by the reference model vsql.Merge3(base = the transaction's snapshot, ours = committed state, theirs = the transaction's state): no conflict => must succeed and the committed working set (read by another session) equals the merge; conflict (same cell changed differently, delete vs modify, different inserts of one key) => must fail with MySQL error 1213 and leave working set, head, dolt_status and dolt_conflicts unchanged. After dolt_commit additionally: first parent of the new head == previous head, head tables == Merge3(head at transaction start, head now, committer's view) wherever that merge is conflict-free, HEAD (+) dolt_diff(HEAD,WORKING) == committed working set. At the end all open transactions commit in a drawn order and a fresh session must read exactly the model's state. Non-trivial: the case has >= 1 successful non-fast-forward commit that merged one row cell-wise (both sides modified different cells of it) and >= 1 rejected commit; distinct by the full statement history."
+const c23Rule = "2-4 client sessions (mostly autocommit off) run 20-50 statements on one table with 3-4 value columns and primary keys 1..4 on one branch (one case in four: two branches) in a statement-level interleaving drawn by rapid: single/multi-column UPDATE (constants and c=c+1), INSERT/REPLACE, DELETE, COMMIT, BEGIN (implicit commit), ROLLBACK and CALL dolt_commit('-Am'|'-am'). Every commit attempt is decided by the reference model vsql.Merge3(base = the transaction's snapshot, ours = committed state, theirs = the transaction's state): no conflict => must succeed and the committed working set (read by another session) equals the merge; conflict (same cell changed differently, delete vs modify, different inserts of one key) => must fail with MySQL error 1213 and leave working set, head, dolt_status and dolt_conflicts unchanged. After dolt_commit additionally: first parent of the new head == previous head, head tables == Merge3(head at transaction start, head now, committer's view) wherever that merge is conflict-free, HEAD (+) dolt_diff(HEAD,WORKING) == committed working set. At the end all open transactions commit in a drawn order and a fresh session must read exactly the model's state. Non-trivial: the case has >= 1 successful non-fast-forward commit that merged one row cell-wise (both sides modified different cells of it) and >= 1 rejected commit; distinct by the full statement history."
 
 func c23Cfg() *txCfg {
 	ops := []string{}
@@ -21,15 +21,15 @@ func c23Cfg() *txCfg {
 		}
 	}
 	add("read", 8)
-	add("write", 50)
-	add("commit", 24)
+	add("write", 56)
+	add("commit", 14)
 	add("rollback", 3)
-	add("begin", 4)
+	add("begin", 3)
 	add("setac", 1)
 	add("switch", 1)
-	add("doltcommit", 7)
+	add("doltcommit", 6)
 	return &txCfg{id: "C23", sessMin: 2, sessMax: 4, tablesMax: 1, branchMin: 1, branchMax: 2, vcolMin: 3, vcolMax: 4,
-		pkMax: 3, stepsMin: 20, stepsMax: 50, ops: ops, kindWeights: [4]int{3, 1, 14, 2}, pkPredPercent: 85, crossBranchWrites: false, acOnPercent: 10}
+		pkMax: 4, stepsMin: 20, stepsMax: 50, ops: ops, kindWeights: [4]int{3, 1, 14, 2}, pkPredPercent: 85, branchChoices: []int{1, 1, 1, 2}, crossBranchWrites: false, acOnPercent: 10}
 }
 
 func TestVerif_C23(t *testing.T) {
